@@ -85,12 +85,18 @@ func WaitGone(d time.Duration, subs ...string) []G {
 	}
 }
 
-// BlockedInLib returns library-frame goroutines blocked on a lock, channel or WaitGroup.
+// BlockedInLib returns library-frame goroutines blocked on a lock, channel or WaitGroup, or spinning inside the library.
 func BlockedInLib(gs []G) []G {
 	var out []G
 	for _, g := range With(gs, Lib) {
 		s := g.State
 		if strings.Contains(s, "sync.") || strings.Contains(s, "chan ") || strings.Contains(s, "semacquire") || strings.Contains(s, "select") {
+			out = append(out, g)
+			continue
+		}
+		// not blocked but still executing library code itself (innermost frame in the library) long after the call
+		// began: a loop that does not terminate
+		if (strings.HasPrefix(s, "running") || strings.HasPrefix(s, "runnable")) && len(g.Frames) > 0 && strings.Contains(g.Frames[0], Lib) {
 			out = append(out, g)
 		}
 	}
